@@ -11,6 +11,8 @@ def sig(s, trace, why):
         return "c08:stream-at-or-above-goaway-id-served"
     if "invariant after GOAWAY" in why:
         return "c08:goaway-id-not-above-served-streams"
+    if "stopped with another code" in why:
+        return "c08:refused-request-stopped-with-another-code"
     if "refused" in why:
         return "c08:stream-below-line-refused"
     return "c08:" + w
